@@ -397,21 +397,15 @@ def rules(rep, m):
                 continue
             cx = None
             for lhs, rhs, kind, node in inv.stores(f):
-                l = strip(lhs, casts=True)
-                # find an ArraySubscriptExpr on a 'heap' member/alias in the lvalue
-                x = l
-                while x["kind"] == "MemberExpr" and not x.get("isArrow"):
-                    x = strip(kids(x)[0], casts=True)
-                if x["kind"] != "ArraySubscriptExpr":
+                # the lvalue, through single-definition locals (a tag pointer such as saved = &heap[0] included), names
+                # slot <n> of a heap array of tags
+                if "cmi_heap_tag" not in (strip(lhs, casts=True).get("type") or "") and \
+                        not any("cmi_heap_tag" in (y.get("type") or "") for y in walk(lhs)):
                     continue
                 cx = cx or FuncCtx(m, f)
-                base = cx.canon(kids(x)[0])
-                if not (base.endswith("->heap") or base == "heap"):
-                    continue
-                if "cmi_heap_tag" not in (kids(x)[0].get("type") or ""):
-                    continue
-                idx = cx.resolve(kids(x)[1])
-                if int_value(idx) == slot:
+                lc = cx.canon(lhs)
+                mm_ = re.fullmatch(r"\*?&?\(?(?:.+->)?heap\[(\d+)\]\)?(?:\.\w+)*", lc)
+                if mm_ and int(mm_.group(1)) == slot:
                     writers.append((f, node))
         names = sorted({f.name for f, _ in writers})
         r5.instance("writers of heap[%d]: %s" % (slot, ", ".join(names)))
@@ -428,10 +422,9 @@ def rules(rep, m):
         # dequeue's slot-0 write is a copy of the head
         dq = m.need("cmi_hashheap_dequeue")
         dcx = FuncCtx(m, dq)
-        copied = any(kind == "=" and re.fullmatch(r"(heap|.*->heap)\[1\]", dcx.canon(rhs) or "") and
-                     int_value(dcx.resolve(kids(strip(lhs, casts=True))[1])) == slot
-                     for lhs, rhs, kind, node in inv.stores(dq)
-                     if strip(lhs, casts=True)["kind"] == "ArraySubscriptExpr")
+        copied = any(kind == "=" and rhs is not None and re.fullmatch(r"\*?&?\(?(heap|.*->heap)\[1\]\)?", dcx.canon(rhs) or "") and
+                     re.fullmatch(r"\*?&?\(?(heap|.*->heap)\[%d\]\)?" % slot, dcx.canon(lhs) or "")
+                     for lhs, rhs, kind, node in inv.stores(dq))
         if not copied:
             rep.finding(r5, dq.name, "current-slot:copy", "dequeue does not copy the head entry into heap[%d]" % slot,
                         where=m.rel(dq.where))
